@@ -10,7 +10,7 @@ From Coq Require Import ZArith NArith List Bool.
 From Texel Require Import Chess.Types Chess.Position Chess.PositionSpec Chess.PositionProofs Chess.PositionProofs2
   Chess.BitBoard Chess.MoveGen Chess.MoveGenWF Chess.Fen Chess.Spec
   RevGen.RevGen RevGen.RevFacts RevGen.RevAbs RevGen.RevRestore RevGen.RevValid RevGen.RevCand RevGen.RevRaw
-  RevGen.RevLegal RevGen.RevTheorems RevGen.RevSpec RevGen.RevPremise.
+  RevGen.RevLegal RevGen.RevTheorems RevGen.RevSpec RevGen.RevPremise RevGen.RevPawn RevGen.RevCastle RevGen.RevComplete.
 Import ListNotations.
 Local Open Scope N_scope.
 
@@ -82,11 +82,49 @@ Definition C15_complete_statement : Prop :=
     exists um, In um (genMoves zk q incl) /\ um_move um = m /\
       normEmpty (unMakeMove zk q m (um_ui um)) = normEmpty (set_halfMoveClock p 0).
 
-(** proved for every legal move that is neither castling nor a pawn move: all moves of queen, rook,
-    bishop, knight and king (quiet or capturing, incl. moves that lose castling rights by a king or
-    rook move or by capturing a rook on its corner, from positions with or without e.p. square).
-    For the two remaining classes the un-move is in the list as soon as genMovesNoUndoInfo lists the
-    move (C15_complete_given_raw); that last step is not proved for them. *)
+(** proved: the statement above, for every legal move *)
+Theorem C15_complete : C15_complete_statement.
+Proof. exact complete_exists. Qed.
+Print Assumptions C15_complete.
+
+(** ... with the undo information spelled out: it is exactly the one makeMove produced, clock 0 *)
+Theorem C15_complete_undo_info : forall zk, emptyKeysZero zk -> forall p m incl,
+  WFrev zk p -> legal_spec (abs p) m ->
+  (incl = true \/ epSquare p = (-1)%Z \/
+   (isPawnPiece (getPiece p (mfrom m)) = true /\ Z.of_N (mto m) = epSquare p)) ->
+  In (mkUnMove m (withClock (snd (makeMove zk p m)) 0)) (genMoves zk (successor zk p m) incl) /\
+  normEmpty (unMakeMove zk (successor zk p m) m (withClock (snd (makeMove zk p m)) 0)) = normEmpty (set_halfMoveClock p 0).
+Proof. exact complete_all. Qed.
+Print Assumptions C15_complete_undo_info.
+
+(** per class of move (the classes are the blocks of the engine's pseudo-legal generator, see
+    C15_legal_move_classes): castling, both sides and both colours ... *)
+Theorem C15_complete_castling : forall zk, emptyKeysZero zk -> forall p m incl,
+  WFrev zk p ->
+  (incl = true \/ epSquare p = (-1)%Z \/
+   (isPawnPiece (getPiece p (mfrom m)) = true /\ Z.of_N (mto m) = epSquare p)) ->
+  In m (castleMoves (whiteMove p) p (occupiedBB p) (kingSq p (whiteMove p)) []) -> CompleteAt zk p m incl.
+Proof. exact complete_castle. Qed.
+Print Assumptions C15_complete_castling.
+
+(** ... and every pawn move: single and double pushes (with or without a resulting e.p. square),
+    captures, promotions with and without capture, en-passant captures ([PawnMove] lists the forms) *)
+Theorem C15_complete_pawn : forall zk, emptyKeysZero zk -> forall p m incl,
+  WFrev zk p ->
+  (incl = true \/ epSquare p = (-1)%Z \/
+   (isPawnPiece (getPiece p (mfrom m)) = true /\ Z.of_N (mto m) = epSquare p)) ->
+  In m (pawnBlock (whiteMove p) p []) -> CompleteAt zk p m incl.
+Proof. exact complete_pawnBlock. Qed.
+Print Assumptions C15_complete_pawn.
+
+(** the five forms of a pawn move the proof distinguishes, derived from the FIDE rules *)
+Theorem C15_pawn_move_forms : forall (zk : zkeys) p m,
+  (exists fx r, on_board fx r = true /\ at_ (squares p) fx r = mk_piece (whiteMove p) Pawn /\ In m (pawn_moves (abs p) fx r)) ->
+  PawnOn p m /\ PawnMove p m.
+Proof. exact pawnMove_of_spec. Qed.
+Print Assumptions C15_pawn_move_forms.
+
+(** the earlier partial form (all moves of queen, rook, bishop, knight and king that are not castling) *)
 Theorem C15_complete_partial : forall zk, emptyKeysZero zk -> forall p m incl,
   WFrev zk p -> legal_spec (abs p) m ->
   (incl = true \/ epSquare p = (-1)%Z \/
